@@ -3,3 +3,8 @@ module verif
 go 1.24
 
 require golang.org/x/tools v0.29.0
+
+require (
+	golang.org/x/mod v0.22.0 // indirect
+	golang.org/x/sync v0.10.0 // indirect
+)
